@@ -32,6 +32,60 @@ class Dead(Exception):
     """The driver gave up waiting (reported to the spec as a TIMEOUT event)."""
 
 
+class ScriptMem:
+    """Native memory with the same pulse semantics as IdealMem but SCRIPTED timing (replay of TLC behaviours, binding B3):
+    cmd.ready of cycle c = ready[c] (1 after the script); the k-th accepted command gets its single wdata.ready /
+    rdata.valid strobe lat[k] cycles after its accept (default 2), in command order."""
+
+    def __init__(self, port, ready, lat, init):
+        self.port, self.ready, self.lat, self.initf = port, list(ready), list(lat), init
+        self.mem, self.events, self.outstanding, self.cycle = {}, [], 0, 0
+        self.nb = port.data_width // 8
+
+    def read(self, a):
+        return self.mem.get(a, self.initf(a))
+
+    def sorted_events(self):
+        return self.events
+
+    def process(self):
+        port, q, k = self.port, [], 0
+        rdy, strobe = 0, None
+        while True:
+            c = self.cycle
+            if strobe is not None:
+                if strobe[0]:
+                    if (yield port.wdata.valid):
+                        d, m = (yield port.wdata.data), (yield port.wdata.we)
+                        old = self.read(strobe[1])
+                        for j in range(self.nb):
+                            if (m >> j) & 1:
+                                old = (old & ~(0xff << (8 * j))) | (d & (0xff << (8 * j)))
+                        self.mem[strobe[1]] = old
+                        self.events.append(dict(c="WDATA", a=strobe[1], t=c))
+                    else:
+                        self.events.append(dict(c="WDROP", a=strobe[1], t=c))
+                self.outstanding -= 1
+                strobe = None
+            if rdy and (yield port.cmd.valid):
+                q.append([(yield port.cmd.we), (yield port.cmd.addr), c + (self.lat[k] if k < len(self.lat) else 2)])
+                self.events.append(dict(c="CMD", we=bool(q[-1][0]), a=q[-1][1], t=c))
+                k += 1
+                self.outstanding += 1
+            rdy = self.ready[c + 1] if c + 1 < len(self.ready) else 1
+            yield port.cmd.ready.eq(rdy)
+            fire = bool(q) and q[0][2] <= c + 1
+            yield port.wdata.ready.eq(1 if fire and q[0][0] else 0)
+            yield port.rdata.valid.eq(1 if fire and not q[0][0] else 0)
+            if fire:
+                strobe = q.pop(0)
+                yield port.rdata.data.eq(self.read(strobe[1]) if not strobe[0] else 0x99999999 & ((1 << port.data_width) - 1))
+            else:
+                yield port.rdata.data.eq(int("99" * self.nb, 16))
+            self.cycle += 1
+            yield
+
+
 # ------------------------------------------------------------------------------------------------ Wishbone
 
 CTI_CLASSIC, CTI_CONST, CTI_INCR, CTI_END = 0, 1, 2, 7
@@ -101,6 +155,10 @@ def wb_plan(sc):
                               cti=rnd.choice([CTI_CLASSIC, CTI_CLASSIC, CTI_CLASSIC, CTI_END, CTI_CONST]),
                               abort=abort(we), stbgap=0))
         ops.append(dict(pre=pre, beats=beats, drop_after=drop_after))
+    # every run ends with a first beat of a write burst after which the master negates CYC for good: the posted / merged
+    # data must still reach the backing memory (final MEM dump)
+    ops.append(dict(pre=("idle", 2), drop_after=True,
+                    beats=[dict(a=basew + win + 3, we=1, sel=(1 << nbw) - 1, d=rnd.getrandbits(sc["wbw"]), cti=CTI_INCR, abort=None, stbgap=0)]))
     return ops
 
 
@@ -126,8 +184,11 @@ def run_wb(sc):
     top = build_wb(sc)
     wb, port = top.wb, top.port
     nbw, nbp = sc["wbw"] // 8, sc["pw"] // 8
-    mem = IdealMem([port], seed=sc["seed"], lat=tuple(sc.get("lat", (3, 12))), stall=sc.get("stall", 0.3),
-                   init=initword_fn(nbp))
+    if sc.get("mem_script"):
+        mem = ScriptMem(port, sc["mem_script"]["ready"], sc["mem_script"]["lat"], initword_fn(nbp))
+    else:
+        mem = IdealMem([port], seed=sc["seed"], lat=tuple(sc.get("lat", (3, 12))), stall=sc.get("stall", 0.3),
+                       init=initword_fn(nbp))
     ops = wb_plan(sc)
     bound = sc.get("bound", 1500)
     rnd = random.Random(sc["seed"] * 31 + 5)
@@ -180,8 +241,17 @@ def run_wb(sc):
         try:
             must_idle = True
             for op in ops:
-                mode, g = op["pre"]
-                if must_idle or mode == "idle":
+                if op.get("pre_seq") is not None:
+                    # exact replay of a TLC behaviour: list of (cyc level, cycles)
+                    for lvl, g in op["pre_seq"]:
+                        yield from idle(g, lvl)
+                    must_idle = False
+                    mode, g = "b2b", 0
+                else:
+                    mode, g = op["pre"]
+                if op.get("pre_seq") is not None:
+                    pass
+                elif must_idle or mode == "idle":
                     yield from idle(max(1, g), 0)
                 elif mode == "hold":
                     yield from idle(max(1, g), 1)
@@ -305,6 +375,9 @@ def avl_plan(sc):
         bc = rnd.randint(2, maxb) if rnd.random() < p_burst else 1
         if bc > 1 and rnd.random() < 0.3:
             bc = min(maxb, rnd.choice([2, 2, 3, maxb]))
+        if sc.get("long_bursts") and rnd.random() < 0.5:
+            # longer than the bridge's FIFOs (max_burst_length): exercises waitrequest back-pressure inside a burst
+            bc = rnd.choice([maxb + 1, 2 * maxb + 1, 3 * maxb + 2])
         pre = rnd.choice([0, 0, 0, 1, 2, 5, 20])
         a = addr()
         al = sc.get("align_end", 0)          # optional: bursts of this kind end on a multiple of `al` words
@@ -499,7 +572,8 @@ def run_avl(sc):
     for a in sorted(touched):
         evs.append(dict(c="MEM", a=a, d=tobytes(mem.read(a), nbp)))
     evs.append(dict(c="END"))
-    header = dict(c="NEW", ab=nba, pb=nbp, base=basew, bound=bound, maxburst=sc.get("maxburst", 16))
+    header = dict(c="NEW", ab=nba, pb=nbp, base=basew, bound=bound,
+                  maxburst=255 if sc.get("long_bursts") else sc.get("maxburst", 16))
     return dict(header=header, events=evs, cycles=state["cycle"], dead=state["dead"], ops=ops, memlog=mem.sorted_events(),
                 lock=lock, log=log)
 
@@ -524,11 +598,18 @@ def execute_bus(sc, workdir, kind):
     tspec = "T_WbMem" if kind == "wb" else "T_AvlMem"
     lines, starts, cycles, dead, keys, lockres = [], [], 0, 0, set(), None
     plans = sc.get("plans")
+    scripts = None
+    if sc.get("tlc"):
+        stim = tlc_stimuli(sc, workdir)
+        plans, scripts = [x[0] for x in stim], [x[1] for x in stim]
     nruns = len(plans) if plans else sc.get("runs", 1)
     for k in range(nruns):
         sub = dict(sc, seed=sc["seed"] * 1000 + k)
         if plans:
             sub["ops"] = plans[k]
+        if scripts and scripts[k]:
+            sub["mem_script"] = scripts[k]
+            sub["noise"] = False
         sub["lockstep"] = bool(sc.get("lockstep")) and k == 0
         r = run(sub)
         starts.append(len(lines) + 1)                  # 1-based trace line of this run's header
@@ -588,3 +669,308 @@ def execute_bus(sc, workdir, kind):
             "D_Wb2Native/D_WbEq" if kind == "wb" else "D_Avl2Native", d[0] - 2, d[2], d[3], d[4]))
     return dict(bad=bad, evaluations=nacc, nontrivial=[list(k) for k in sorted(keys, key=str)], traces=nruns,
                 sample=sample, stats=stats, lockstep=(lockres["cycles"] if lockres else 0), lockstep_detail=lockres, notes=notes)
+
+
+# ------------------------------------------------------------------------------------------------ B3: TLC behaviours -> stimuli
+
+def parse_tlc_behaviour(text):
+    """TLC's textual behaviour (error trace or -simulate dump) of MC_Wb2Native -> list of per-cycle dicts
+    (m = master outputs, mo = memory outputs, pend_after = monitor's pend after the cycle, fresh = a native command was
+    accepted in the PREVIOUS cycle).  State k+1 of the behaviour holds the signals driven in cycle k."""
+    import re
+    blocks = re.split(r"\n(?:State \d+:|STATE_\d+ ==)", "\n" + text)[1:]
+
+    def rec(line):
+        return {k: int(v) for k, v in re.findall(r"(\w+) \|-> (-?\d+)", line)}
+    out = []
+    for b in blocks:
+        m = re.search(r"/\\ m = (\[[^\n]*\])", b)
+        mo = re.search(r"/\\ mo = (\[[^\n]*\])", b)
+        pend = re.search(r"pend \|-> (TRUE|FALSE)", b)
+        q = re.search(r"/\\ q = ([^\n]*)", b)
+        if not (m and mo and pend and q):
+            continue
+        out.append(dict(m=rec(m.group(1)), mo=rec(mo.group(1)), pend=pend.group(1) == "TRUE",
+                        fresh="age |-> 1]" in q.group(1) or "age |-> 1," in q.group(1)))
+    return out
+
+
+def behaviour_to_scenario(beh, suffix_addrs=4):
+    """Master operations (closed loop: aborts as cycle counts, exact idle/hold gaps) + memory timing script."""
+    N = len(beh)
+    ops, pre, k = [], [], 0
+    while k < N:
+        m = beh[k]["m"]
+        if m["cyc"] and m["stb"]:
+            start, j, abort = k, k, None
+            while True:
+                if j + 1 < N and not beh[j + 1]["pend"]:
+                    break                                   # acknowledged in cycle j
+                if j + 1 >= N:
+                    break                                   # behaviour ends with the access open: keep waiting
+                nxt = beh[j + 1]["m"]
+                if not (nxt["cyc"] and nxt["stb"]):
+                    abort = j + 1 - start
+                    break
+                j += 1
+            ops.append(dict(pre_seq=pre, drop_after=False,
+                            beats=[dict(a=m["a"], we=m["we"], sel=m["sel"], d=m["d"], cti=m["cti"], abort=abort, stbgap=0)]))
+            pre = []
+            k = j + 1
+        else:
+            if pre and pre[-1][0] == m["cyc"]:
+                pre[-1][1] += 1
+            else:
+                pre.append([m["cyc"], 1])
+            k += 1
+    # suffix: look at every address twice, rewrite, look again (classic cycles, CYC negated in between)
+    for rep in range(2):
+        for a in range(suffix_addrs):
+            ops.append(dict(pre_seq=[[0, 1]], drop_after=False, beats=[dict(a=a, we=0, sel=1, d=0, cti=0, abort=None, stbgap=0)]))
+        if rep == 0:
+            for a in range(suffix_addrs):
+                ops.append(dict(pre_seq=[], drop_after=False, beats=[dict(a=a, we=1, sel=1, d=0x40 + a, cti=7, abort=None, stbgap=0)]))
+    ready = [0] + [b["mo"]["cmd_ready"] for b in beh]      # the master generator's first assignment lands one cycle late
+    accepts = [k - 1 for k in range(1, N) if beh[k]["fresh"]]           # fresh in state k+1 <=> accepted in cycle k-1
+    pulses = [k for k in range(N) if beh[k]["mo"]["wdata_ready"] or beh[k]["mo"]["rdata_valid"]]
+    lat = [p - a for a, p in zip(accepts, pulses)]
+    return ops, dict(ready=ready, lat=lat)
+
+
+WB_GOALS = ["write_to_cached_word", "access_behind_aborted_read", "drop_in_read_cmd_cache_valid", "pending_merge_other_word",
+            "cache_hit_last_beat", "write_cmd_stalled_master_gone", "drop_as_data_returns"]
+
+_GOAL_CFG = """SPECIFICATION Spec
+CONSTANTS
+  PATH = "narrow"
+  R = 2
+  NW = 2
+  SELS = {0, 1}
+  HOLD = TRUE
+  VALS = 3
+  COVER = FALSE
+  LMIN = 1
+  LMAX = 3
+  STALL = 2
+  WMAX = 0
+  BUG = "none"
+INVARIANTS %s
+CHECK_DEADLOCK FALSE
+"""
+
+
+def _suffix_fix(ops):
+    """The read-back suffix may only follow with CYC held when the last replayed beat did not announce a further burst beat."""
+    n = max(i for i, op in enumerate(ops) if op.get("from_tlc"))
+    if ops[n]["beats"][-1]["cti"] == 2 or ops[n]["beats"][-1]["abort"] is not None:
+        ops[n + 1]["pre_seq"] = [[0, 1]]
+    else:
+        ops[n + 1]["pre_seq"] = []
+    return ops
+
+
+def tlc_stimuli(sc, workdir):
+    """B3: behaviours of the closed design model MC_Wb2Native -> list of (ops, mem_script | None).
+    sc["tlc"] = dict(goal=name)  : TLC BFS, shortest behaviour reaching the goal; replayed once with the exact memory
+                                   script and sc["tlc"]["extra"] more times against the randomly timed ideal memory;
+              = dict(sim=N, depth=D): TLC -simulate, N random behaviours, each replayed with its exact script."""
+    import glob, os
+    from . import tlc
+    t = sc["tlc"]
+    behs = []
+    if "goal" in t:
+        r = tlc.model_check("MC_Wb2Native", _GOAL_CFG % ("NotGoal_" + t["goal"]), workdir, workers=2, timeout=t.get("timeout", 1500), xmx="4g")
+        if r["ok"] or not (r["violated"] or "").startswith("NotGoal"):
+            raise RuntimeError("TLC did not reach the stimulus goal %s (%s)" % (t["goal"], r["violated"]))
+        out = r["out"]
+        behs.append(parse_tlc_behaviour(out[out.index("The behavior up to this point"):]))
+    else:
+        pref = os.path.join(workdir, "beh")
+        cfg = _GOAL_CFG % "NoClauseBroken"
+        rc, out = tlc.simulate("MC_Wb2Native", cfg, workdir, num=t["sim"], depth=t["depth"], seed=sc["seed"] + 1, out_prefix=pref,
+                               timeout=t.get("timeout", 1500))
+        files = sorted(glob.glob(pref + "_*"))
+        if not files:
+            raise RuntimeError("TLC -simulate wrote no behaviours:\n" + out[-1500:])
+        for f in files:
+            with open(f) as fh:
+                behs.append(parse_tlc_behaviour(fh.read()))
+            os.remove(f)
+    stim = []
+    for beh in behs:
+        if len(beh) < 3:
+            raise RuntimeError("could not parse the TLC behaviour")
+        ops, ms = behaviour_to_scenario(beh)
+        nb = len([1 for _ in ops]) - 3 * 4
+        for i, op in enumerate(ops):
+            op["from_tlc"] = i < nb
+        ops = _suffix_fix(ops)
+        for op in ops:
+            op.pop("from_tlc", None)
+        stim.append((ops, ms))
+        for _ in range(t.get("extra", 0) if "goal" in t else 0):
+            stim.append((ops, None))
+    return stim
+
+
+# ------------------------------------------------------------------------------------------------ reverse bridge (native -> Wishbone)
+
+def run_nat2wb(sc):
+    """LiteDRAMNative2Wishbone: native master (holds cmd until accepted, offers write data from the command on, always
+    accepts read data) in front, a classic Wishbone slave memory with random acknowledge latency behind."""
+    env.setup()
+    from migen import Module, passive
+    from litex.soc.interconnect import wishbone
+    from litedram.common import LiteDRAMNativePort
+    from litedram.frontend.wishbone import LiteDRAMNative2Wishbone
+    dw = sc["dw"]
+    nb = dw // 8
+    basew = sc["base"] // nb
+
+    class Top(Module):
+        def __init__(self):
+            self.wb = wishbone.Interface(data_width=dw, adr_width=30, addressing="word")
+            self.port = LiteDRAMNativePort("both", address_width=24, data_width=dw)
+            self.submodules.bridge = LiteDRAMNative2Wishbone(self.port, self.wb, base_address=sc["base"])
+    top = Top()
+    wb, port = top.wb, top.port
+    rnd = random.Random(sc["seed"] * 7 + 3)
+    init = initword_fn(nb)
+    smem = {}
+    events = []
+    state = dict(cycle=0, done=False, dead=False)
+    win = sc.get("window", 24)
+    plan = []
+    for i in range(sc["nops"]):
+        a = rnd.randrange(win) if rnd.random() < 0.9 else (1 << 12) + rnd.randrange(4)
+        we = rnd.random() < 0.5
+        plan.append((rnd.choice([0, 0, 0, 1, 3, 10]), we, a, rnd.getrandbits(dw),
+                     rnd.getrandbits(nb) if rnd.random() < 0.35 else (1 << nb) - 1, rnd.choice([0, 0, 1, 4])))
+
+    def master():
+        for gap, we, a, d, m, wgap in plan:
+            for _ in range(gap):
+                yield
+            yield port.cmd.valid.eq(1)
+            yield port.cmd.we.eq(we)
+            yield port.cmd.addr.eq(a)
+            if we:
+                yield port.wdata.valid.eq(1)
+                yield port.wdata.data.eq(d)
+                yield port.wdata.we.eq(m)
+            n = 0
+            while True:
+                yield
+                n += 1
+                if (yield port.cmd.ready):
+                    break
+                if n > 2000:
+                    state["dead"] = True
+                    return
+            yield port.cmd.valid.eq(0)
+            n = 0
+            if we:
+                while not ((yield port.wdata.ready)):
+                    yield
+                    n += 1
+                    if n > 2000:
+                        state["dead"] = True
+                        return
+                yield port.wdata.valid.eq(0)
+            else:
+                while not ((yield port.rdata.valid)):
+                    yield
+                    n += 1
+                    if n > 2000:
+                        state["dead"] = True
+                        return
+        for _ in range(20):
+            yield
+
+    @passive
+    def slave():
+        # classic slave: ACK after a random number of wait states, only in answer to CYC & STB
+        wait = None
+        while True:
+            cyc, stb = (yield wb.cyc), (yield wb.stb)
+            if cyc and stb and not (yield wb.ack):
+                if wait is None:
+                    wait = rnd.choice([0, 0, 1, 2, 5])
+                if wait == 0:
+                    adr = (yield wb.adr)
+                    if (yield wb.we):
+                        d, s = (yield wb.dat_w), (yield wb.sel)
+                        old = smem.get(adr, init(adr - basew))
+                        for j in range(nb):
+                            if (s >> j) & 1:
+                                old = (old & ~(0xff << (8 * j))) | (d & (0xff << (8 * j)))
+                        smem[adr] = old
+                    yield wb.dat_r.eq(smem.get(adr, init(adr - basew)))
+                    yield wb.ack.eq(1)
+                    wait = None
+                else:
+                    wait -= 1
+                    yield wb.ack.eq(0)
+            else:
+                yield wb.ack.eq(0)
+                yield wb.dat_r.eq(rnd.getrandbits(dw))
+            yield
+
+    @passive
+    def recorder():
+        pend = False
+        while True:
+            c = state["cycle"]
+            if (yield port.cmd.valid) and (yield port.cmd.ready):
+                events.append(dict(c="CMD", p=0, we=bool((yield port.cmd.we)), a=(yield port.cmd.addr), t=c))
+            act = (yield wb.cyc) and (yield wb.stb)
+            if act and not pend:
+                events.append(dict(c="WBREQ", adr=(yield wb.adr), we=(yield wb.we), sel=bits((yield wb.sel), nb),
+                                   d=tobytes((yield wb.dat_w), nb), t=c))
+                pend = True
+            elif pend and not act:
+                events.append(dict(c="WBDROP", t=c))
+                pend = False
+            if pend and (yield wb.ack):
+                pend = False
+            if (yield port.wdata.valid) and (yield port.wdata.ready):
+                m = (yield port.wdata.we)
+                events.append(dict(c="WDATA", p=0, d=tobytes((yield port.wdata.data), nb), m=bits(m, nb), t=c))
+            if (yield port.rdata.valid):
+                events.append(dict(c="RDATA", p=0, d=tobytes((yield port.rdata.data), nb), t=c))
+            state["cycle"] = c + 1
+            yield
+
+    env.run_simulation(top, [master(), slave(), recorder()])
+    words = set(smem)
+    for _, we, a, _, _, _ in plan:
+        words.add(a + basew)
+    for w in sorted(words):
+        events.append(dict(c="MEM", a=w, d=tobytes(smem.get(w, init(w - basew)), nb)))
+    events.append(dict(c="END"))
+    header = dict(c="NEW", nports=1, uniq=False, nb=nb, basew=basew)
+    return dict(header=header, events=events, cycles=state["cycle"], dead=state["dead"])
+
+
+def execute_nat2wb(sc, workdir):
+    import os
+    from . import tlc
+    lines, cycles, dead = [], 0, 0
+    for k in range(sc.get("runs", 1)):
+        r = run_nat2wb(dict(sc, seed=sc["seed"] * 1000 + k))
+        lines.append(r["header"])
+        lines.extend(r["events"])
+        cycles += r["cycles"]
+        dead += int(r["dead"])
+    tf = os.path.join(workdir, "trace.ndjson")
+    tlc.write_ndjson(tf, lines[0], lines[1:])
+    v = tlc.validate_trace("T_Nat2Wb", tf, workdir)
+    if not os.environ.get("VERIF_KEEP"):
+        os.remove(tf)
+    bad = [b[1:] for b in v["bad"]]
+    if dead:
+        bad.append(["native command never completed (driver gave up after 2000 cycles)", "reverse"])
+    info = v["info"] or {}
+    return dict(bad=bad, evaluations=info.get("cmd", 0), nontrivial=[["reverse", sc["dw"], sc["base"] != 0]], traces=sc.get("runs", 1),
+                sample=dict(path="reverse", cycles=cycles, lines=len(lines), counts=info, first_events=lines[1:4]),
+                stats=dict(cycles=cycles, events=len(lines), n_reverse_cmds=info.get("cmd", 0), n_reverse_wbreq=info.get("wbreq", 0)))
